@@ -44,6 +44,12 @@ def dstep (s : DState) (toks : List String) : DState × String :=
         ({ s with it := it }, showItem it ++ " @@ " ++ arm)
       | .panic => (s, "panic")
     | _, _ => (s, "bad-op")
+  | ["modbad", r, d] =>
+    -- a modify request that the server rejects (unsupported filter): not an operation of the model —
+    -- the item is as it was
+    match r.toNat?, parseBool? d with
+    | some _, some _ => (s, "err BadMonitoredItemFilterUnsupported " ++ showItem s.it ++ " @@ modify-rejected")
+    | _, _ => (s, "bad-op")
   | _ => (s, "bad-op")
 
 def driver : Driver := { σ := DState, init := { maxQ := 10, it := mk 10 1 true }, step := dstep }
